@@ -88,6 +88,10 @@ class Check:
             thunk()
         except ir.AnalysisBroken as e:
             self.deferred.append(str(e))
+        except (Exception, RecursionError) as e:     # a bug in a rule is "cannot decide", never a verdict
+            import traceback
+            tb = traceback.extract_tb(e.__traceback__)[-1]
+            self.deferred.append("internal error in rule code (%s:%d): %s: %s" % (os.path.basename(tb.filename), tb.lineno, type(e).__name__, e))
 
     def require(self, cond, msg):
         if not cond:
